@@ -8,6 +8,7 @@ from . import values as V
 from .symexec import Val, Exc, Unsupported, fresh_name
 
 WS = " \t\n\r\x0b\x0c"
+PY_REPLACE_ALL = z3.Function("py_replace_all", z3.StringSort(), z3.StringSort(), z3.StringSort(), z3.StringSort())
 
 
 def _conc(*xs):
@@ -44,16 +45,24 @@ def str_method(models, ex, obj, name, args, kwargs, st, node):
         old, new = args[0], args[1]
         if isinstance(old, str) and old == "":
             ex.unsupported(node, "replace of empty needle")
-        t = z3.SeqRef(z3.Z3_mk_seq_replace_all(s.ctx_ref(), s.as_ast(), V.z3str(old).as_ast(), V.z3str(new).as_ast()), s.ctx)
+        # str.replace replaces every occurrence; z3's str.replace only the first and the
+        # Python binding of str.replace_all is unusable in z3 5.1: an uninterpreted
+        # function with the two facts that are always true (A-str)
+        o, nw = V.z3str(old), V.z3str(new)
+        t = PY_REPLACE_ALL(s, o, nw)
+        st.assume(z3.Implies(z3.Not(z3.Contains(s, o)), t == s))
+        st.assume(z3.Implies(o == nw, t == s))
         return [Val(SStr(t), st)]
     if name == "lower":
         from .models import LOWER
 
         return [Val(SStr(LOWER(s)), st)]
     if name == "strip" and not args:
-        from .models import STRIP_WS
-
-        return [Val(SStr(STRIP_WS(s)), st)]
+        return sym_strip(ex, obj, st, node)
+    if name == "split" and len(args) == 2 and isinstance(args[0], str) and args[0] and args[1] == 1:
+        return sym_split_once(ex, obj, args[0], st, node)
+    if name == "splitlines" and not args:
+        return [Val(SSeq(SPLITLINES(s), "str"), st)]
     if name == "isdigit":
         digits = z3.Plus(z3.Range("0", "9"))
         return [Val(SBool(z3.InRe(s, digits)), st)]
@@ -132,3 +141,101 @@ def str_format(models, ex, tmpl, args, kwargs, st, node):
         piece = models.format_spec(v, spec) if spec else models.to_str(v, st)
         out = v_arith("+", out, piece)
     return [Val(out, st)]
+
+
+# --------------------------------------------------------------------------- partial evaluation helpers
+def parts_of(t):
+    """Flatten a z3 string term into a list of parts: Python str for literals, z3 terms otherwise."""
+    out = []
+
+    def walk(x):
+        if z3.is_string_value(x):
+            s = x.as_string()
+            import re
+
+            s = re.sub(r"\\u\{([0-9a-fA-F]+)\}", lambda m: chr(int(m.group(1), 16)), s)
+            if s:
+                out.append(s)
+        elif z3.is_app(x) and x.decl().kind() == z3.Z3_OP_SEQ_CONCAT:
+            for c in x.children():
+                walk(c)
+        else:
+            out.append(x)
+
+    walk(z3.simplify(t))
+    merged = []
+    for p in out:
+        if isinstance(p, str) and merged and isinstance(merged[-1], str):
+            merged[-1] += p
+        else:
+            merged.append(p)
+    return merged
+
+
+def from_parts(parts):
+    if not parts:
+        return ""
+    if all(isinstance(p, str) for p in parts):
+        return "".join(parts)
+    ts = [z3.StringVal(p) if isinstance(p, str) else p for p in parts]
+    return SStr(ts[0] if len(ts) == 1 else z3.Concat(*ts))
+
+
+WS_RE = z3.Union(*[z3.Re(c) for c in WS])
+
+
+def first_nonws(t):
+    return z3.And(z3.Length(t) > 0, z3.Not(z3.InRe(z3.SubString(t, 0, 1), WS_RE)))
+
+
+def last_nonws(t):
+    return z3.And(z3.Length(t) > 0, z3.Not(z3.InRe(z3.SubString(t, z3.Length(t) - 1, 1), WS_RE)))
+
+
+def sym_split_once(ex, obj, sep, st, node):
+    """s.split(sep, 1) for concrete non-empty sep."""
+    parts = parts_of(V.z3str(obj))
+    if parts and isinstance(parts[0], str) and sep in parts[0]:
+        i = parts[0].index(sep)
+        left = parts[0][:i]
+        right = from_parts([parts[0][i + len(sep) :]] + parts[1:]) if parts[0][i + len(sep) :] else from_parts(parts[1:])
+        return [Val([left, right], st)]
+    s = V.z3str(obj)
+    idx = z3.IndexOf(s, z3.StringVal(sep), 0)
+    t, f = ex.split(idx < 0, st)
+    out = []
+    if t is not None:
+        out.append(Val([obj], t))
+    if f is not None:
+        left = SStr(z3.SubString(s, 0, idx))
+        right = SStr(z3.SubString(s, idx + len(sep), z3.Length(s) - idx - len(sep)))
+        out.append(Val([left, right], f))
+    return out
+
+
+def sym_strip(ex, obj, st, node):
+    from .models import STRIP_WS
+
+    parts = parts_of(V.z3str(obj))
+    # strip(ws ++ rest) = strip(rest), strip(rest ++ ws) = strip(rest)
+    while parts and isinstance(parts[0], str) and not parts[0].strip(WS):
+        parts = parts[1:]
+    while parts and isinstance(parts[-1], str) and not parts[-1].strip(WS):
+        parts = parts[:-1]
+    # concrete whitespace at the ends is removed as long as a concrete non-blank character remains there
+    if parts and isinstance(parts[0], str) and parts[0].lstrip(WS):
+        parts[0] = parts[0].lstrip(WS)
+    if parts and isinstance(parts[-1], str) and parts[-1].rstrip(WS):
+        parts[-1] = parts[-1].rstrip(WS)
+    n = from_parts(parts)
+    if isinstance(n, str):
+        return [Val(n.strip(), st)]
+    t = STRIP_WS(n.t)
+    # facts about str.strip() that are always true (A-str)
+    st.assume(z3.Implies(z3.And(first_nonws(n.t), last_nonws(n.t)), t == n.t))
+    st.assume(z3.Contains(n.t, t))
+    st.assume(z3.Implies(z3.Length(t) > 0, z3.And(first_nonws(t), last_nonws(t))))
+    return [Val(SStr(t), st)]
+
+
+SPLITLINES = z3.Function("py_splitlines", z3.StringSort(), z3.SeqSort(z3.StringSort()))
